@@ -86,6 +86,8 @@ def reader_calls(model, rep):
         construct = "system.System.from_file -> %s(...)" % kind
         ok = True
         passed = {k.arg: k.value for k in c.keywords}
+        if None in passed or any(isinstance(a, ast.Starred) for a in c.args):
+            raise AnalysisError("from_file builds %s(...) with unpacked arguments (** / *): which saved parameter reaches which keyword is not readable" % kind)
         for kw in kws:
             if kw not in passed:
                 ok = False
